@@ -1,6 +1,7 @@
 //! akdv: conformance harness binding the TLA+ specifications in /verif/spec to facebook/akd.
 
 mod common;
+mod concdrv;
 mod dirdrv;
 mod hookdb;
 mod labeldrv;
@@ -17,6 +18,7 @@ fn main() {
         "trie" => triedrv::main_trie(&args[2..]),
         "labels" => labeldrv::main_labels(&args[2..]),
         "storage" => stordrv::main_storage(&args[2..]),
+        "conc" => concdrv::main_conc(&args[2..]),
         other => {
             eprintln!("unknown subcommand {other:?}");
             std::process::exit(2);
